@@ -71,6 +71,8 @@ def _exec_body(c, sym=False):
             self.pid = 4242
             self.returncode = None
             log.append(('spawn', list(args)))
+            if preexec_fn is not None:
+                preexec_fn()        # runs in the child before exec
 
         def communicate(self, timeout=None):
             log.append(('communicate', timeout))
@@ -119,6 +121,17 @@ def _exec_body(c, sym=False):
         def setrlimit(res, lim):
             limits.append((None, res, lim))
 
+    if not c.get('prlimit', True):
+        # platforms without prlimit: limits are set in the child (preexec)
+        class FakeResource:            # noqa: F811
+            RLIMIT_AS = 9
+            RLIMIT_CPU = 0
+            RLIM_INFINITY = -1
+
+            @staticmethod
+            def setrlimit(res, lim):
+                limits.append((None, res, lim))
+
     _set_args(cmd=['s'], unchecked=False, memout=None, timeout=c['timeout'])
     saved = (checker.subprocess, checker.resource, checker.math)
     checker.subprocess = FakeSubprocess
@@ -134,6 +147,11 @@ def _exec_body(c, sym=False):
     comm = [(e[0], unwrap(e[1])) for e in log if e[0] == 'communicate']
     if len(comm) < 1 or comm[0][1] != c['timeout']:
         return f'wall-clock limit not passed to communicate(): {log!r}'
+    cpu = [l for l in limits if l[1] == 0]
+    if len(cpu) != 1 or not (cpu[0][2][0] - 1 < c['timeout'] <= cpu[0][2][0]):
+        return f'CPU time limit of the command not set to ceil(limit): {limits!r}'
+    if (cpu[0][0] == 4242) != bool(c.get('prlimit', True)):
+        return f'limit applied to the wrong process: {limits!r}'
     if c['times_out']:
         if ('kill',) not in log:
             return f'timed-out command was not killed: {log!r}'
@@ -149,7 +167,7 @@ def _exec_body(c, sym=False):
 
 
 def make_exec(m):
-    def h(times_out: bool, rc: int, out: str, err: str):
+    def h(times_out: bool, rc: int, out: str, err: str, prlimit: bool):
         timeout = fresh_real('timeout')
         assume(0.0 < timeout <= 1000000.0)
         assume(len(out) <= m and len(err) <= m)
